@@ -181,7 +181,8 @@ def encoder_sections(ctx, pid):
                      "one level deeper and the end statement of the same family (with the name when aggregation_end); PVLEncoder.encode "
                      "returns only texts whose characters are all allowed by the grammar; ODLEncoder.encode_sequence writes only non-empty, at most "
                      "two-dimensional sequences of scalars; sequences / sets / units are their content between the dialect's delimiters; "
-                     "ODLEncoder.encode_value passes a quantity on only when its magnitude is a non-bool number")
+                     "ODLEncoder.encode_value passes a quantity on only when its magnitude is a non-bool number; PVLEncoder.encode_assignment "
+                     "appends a quoted value after the statement head was laid out (never wrapped) and lays any other value out with the head")
     t0 = time.time()
     contracts = ce.quoting_contracts()
     verify_contracts(s, contracts, EncTheory, ["pvl.encoder"], jobs=ctx.jobs)
@@ -197,6 +198,8 @@ def encoder_sections(ctx, pid):
     # quantities: dispatch (PVL/ISIS) and 'units only after numbers' (ODL/PDS3): search loops over the quantity-class records
     verify_contracts(s, ce.units_contracts(), EncTheory, ["pvl.encoder"], jobs=2)
     verify_contracts(s, ce.odl_units_contracts(), EncTheory, ["pvl.encoder"], jobs=2)
+    # the assignment statement: quoted values bypass the line wrapping
+    verify_contracts(s, ce.assignment_contracts(), EncTheory, ["pvl.encoder"], jobs=4)
     s.assumptions += ENC_ASSUMPTIONS
     s.seconds = time.time() - t0
     r = Section("encoder-quoting-runtime-contracts", "bounded", bounded=True,
